@@ -431,7 +431,11 @@ class DungeonModeConstants:
         self.close_constant = close_constant
         self.open_and_request_constant = open_and_request_constant
 
-    def get_explorerscript_constant_for(self, idx: int) -> str:
+    def get_explorerscript_constant_for(self, idx: int | SsbOpParamConstant) -> str:
+        if isinstance(idx, SsbOpParamConstant):
+            # The mode is already given as a constant (eg. output of the compiler that was not turned into
+            # integers yet): keep it as it is.
+            return idx.name
         if idx == 1:
             return self.open_constant
         if idx == 2:
